@@ -414,8 +414,9 @@ impl Keyword {
 
         let mut regex_str = regex::escape(&self.0).replace(' ', "\\s");
 
-        regex_str.insert_str(0, "(?i)");
         if self.1 == KeywordType::Wildcard {
+            // a bare keyword matches case-insensitively, a quoted one is case-sensitive
+            regex_str.insert_str(0, "(?i)");
             regex_str = regex_str.replace("\\*", "(.*?)");
             // If it ends with a star, we need to ensure we read until the end.
             if self.0.ends_with('*') {
